@@ -270,16 +270,13 @@ Proof.
       assert (HeE : In e E) by (apply find_some in He; tauto).
       assert (Hek : ek e = k) by (apply find_some in He; destruct He as [_ He]; now apply key_eqb_eq).
       unfold gc_heads_okb in Hheads. rewrite forallb_forall in Hheads. specialize (Hheads e HeE).
-      rewrite Hek, He in Hheads. apply orb_prop in Hheads. destruct Hheads as [Hkept|Hdrop].
-      * apply existsb_exists in Hkept. destruct Hkept as (x & Hx & Ex). apply entry_eqb_eq' in Ex. subst x.
-        assert (HinK : In e (K k outs)) by (rewrite HKO; apply in_kfilter; tauto).
-        destruct (subseq_head e r (K k outs) HdJ Hss HinK) as (a' & ->). reflexivity.
-      * apply andb_prop in Hdrop. destruct Hdrop as [Htomb Habs].
-        assert (HKnil : K k outs = []).
-        { rewrite HKO. unfold kfilter. apply negb_true_iff in Habs.
-          clear -Habs Hek. induction O as [|o O IH]; cbn in *; [reflexivity|].
-          apply orb_false_iff in Habs. destruct Habs as [H1 H2]. rewrite Hek in H1. rewrite H1. now apply IH. }
-        rewrite HKnil. cbn. destruct (ev e); [discriminate|reflexivity].
+      rewrite Hek, He in Hheads. cbn [shown] in Hheads.
+      rewrite HKO.
+      assert (Hhd : hd_value (kfilter k O) = shown (find (fun x => key_eqb (ek x) k) O)).
+      { unfold kfilter. rewrite <- hd_filter_find. destruct (filter _ O); reflexivity. }
+      rewrite Hhd. cbn [hd_value].
+      destruct (ev e) as [v|], (shown (find (fun x => key_eqb (ek x) k) O)) as [w|]; cbn in Hheads; try discriminate; [|reflexivity].
+      apply key_eqb_eq in Hheads. now subst.
   - eapply desc_mid_subseq; eauto.
   - intros x Hx. apply in_app_or in Hx. apply in_or_app. destruct Hx as [Hx|Hx]; [now left|right].
     apply in_app_or in Hx. apply in_or_app. destruct Hx as [Hx|Hx]; [left; eapply subseq_in; eauto|now right].
